@@ -4,6 +4,8 @@ import BbRe.Lemmas.InputRootSteps
 import BbRe.Lemmas.InputRootFetch
 import BbRe.Lemmas.InputRootEager
 import BbRe.Lemmas.InputRootPaths
+import BbRe.Lemmas.InputRootRename
+import BbRe.Lemmas.InputRootState
 import BbRe.Lemmas.InputRootCache
 import BbRe.Lemmas.InputRootExamples
 /-!
@@ -26,6 +28,10 @@ Vocabulary (all defined in the lemma files, all computable or first order):
 * `WellFormed hl m` — all names valid, no name twice within or across the three
   lists, all digests well-formed, all symlink targets usable.
 * `nodeAt c n p` — the node the path `p` denotes in the requested tree below `n`.
+* `Node.lazy d mon`, `Node.file d x mon` — `mon = some p`: wrapped by the access
+  monitoring fetcher for input root path `p` (`NewAccessMonitoringInitialContentsFetcher`);
+  `Op.merge d true` merges with such a monitor. `Op.rename`, `Op.link` are
+  `VirtualRename`, `VirtualLink`; all theorems about `step`/`run` include them.
 
 Everything is quantified over **every** CAS content (no acyclicity needed except
 for `eager_tree_is_eager`), every exploration/mutation history and every choice
@@ -91,27 +97,27 @@ theorem lazy_equals_eager_root (s : State) (fuel : Nat) (ops : List Op) :
 /-- With fuel above the depth of the DAG below `d` the eager tree really is eager:
 whatever is still lazy in it cannot be loaded (malformed or absent directory). -/
 theorem eager_tree_is_eager (c : CAS) (rank : Dig → Nat) (hr : Acyclic c rank) (d : Dig)
-    (fuel : Nat) (hf : rank d < fuel) : Eager c (expand c fuel (.lazy d)) :=
-  expand_eager c rank hr fuel d hf
+    (mon : Option Path) (fuel : Nat) (hf : rank d < fuel) : Eager c (expand c fuel (.lazy d mon)) :=
+  expand_eager c rank hr fuel d mon hf
 
 /-- Merging a digest into a fresh root and expanding is expanding the digest. -/
 theorem merged_root_expand (c : CAS) (d : Dig) (ch : Children) (fuel : Nat)
-    (h : (fetch c [] d).result = .ok ch) :
-    (merge (init c) [] d).1.root = .dir ch ∧
-    expand c (fuel + 1) (.dir ch) = expand c (fuel + 1) (.lazy d) := by
+    (h : (fetch c [] d none).result = .ok ch) :
+    (merge (init c) [] d false).1.root = .dir ch ∧
+    expand c (fuel + 1) (.dir ch) = expand c (fuel + 1) (.lazy d none) := by
   constructor
   · simp [merge, init, h, contents, actMerge, hasName, lookup]
   · simp [expand, h]
 
 /-- `exCAS` is a DAG of depth 2; fuel 3 leaves only the malformed `bad/` lazy. -/
-example : Eager exCAS (expand exCAS 3 (.lazy dA)) :=
-  eager_tree_is_eager exCAS _ exCAS_acyclic dA 3 (by decide)
+example : Eager exCAS (expand exCAS 3 (.lazy dA none)) :=
+  eager_tree_is_eager exCAS _ exCAS_acyclic dA none 3 (by decide)
 
 /-- A history that looks below a shared subtree first, removes a CAS file, creates a
 local one in its place and lists directories gives the same answers lazily and
 eagerly; the listing shows the replaced entry as a local file. -/
 example :
-    (run (merge (init exCAS) [] dA).1 (noFaults
+    (run (merge (init exCAS) [] dA false).1 (noFaults
       [.lookup [[115], [97]] [122], .remove [] [120], .create [] [120], .readdir [[115]],
        .leaf (.read 1 2) [[115]] [121], .lookup [] [120]])).2 =
     [.status .enoent, .ok, .ok, .listing [([97], .dir), ([121], .file f2 false)],
@@ -186,7 +192,7 @@ theorem lazy_with_faults_history (hs : List (List Dig × Op)) :
 /-- A fault on the shared directory `c0` makes the listing fail; the retry gives the
 listing; a fault on a digest that is not needed changes nothing. -/
 example :
-    (run (merge (init exCAS) [] dA).1
+    (run (merge (init exCAS) [] dA false).1
       [([dC], .readdir [[104]]), ([], .readdir [[104]]), ([dB], .lookup [] [120])]).2 =
     [.status .eio, .listing [], .kind (.file f1 true)] := by decide
 
@@ -197,50 +203,62 @@ or across the three lists, a malformed digest, an unusable symlink target) is
 rejected as a whole: the fetch fails with `InvalidArgument`, no children are
 returned, and every leaf created before the defect was found has been
 unlinked. -/
-theorem malformed_is_error (c : CAS) (F : List Dig) (d : Dig) (m : DirMsg) (hF : d ∉ F)
-    (hm : assoc c.dirs d = some (some m)) (hw : ¬ WellFormed c.hashLen m) :
-    (fetch c F d).result = .error .invalidArgument ∧ (fetch c F d).unlinked = (fetch c F d).created := by
-  obtain ⟨k, hk⟩ := fetch_malformed c F d m hF hm hw
+theorem malformed_is_error (c : CAS) (F : List Dig) (d : Dig) (mon : Option Path) (m : DirMsg)
+    (hF : d ∉ F) (hm : assoc c.dirs d = some (some m)) (hw : ¬ WellFormed c.hashLen m) :
+    (fetch c F d mon).result = .error .invalidArgument ∧
+    (fetch c F d mon).unlinked = (fetch c F d mon).created := by
+  obtain ⟨k, hk⟩ := fetch_malformed c F d mon m hF hm hw
   rw [hk]; exact ⟨rfl, rfl⟩
 
 /-- A blob that is not a Directory message at all is rejected the same way. -/
-theorem garbage_is_error (c : CAS) (F : List Dig) (d : Dig) (hF : d ∉ F)
+theorem garbage_is_error (c : CAS) (F : List Dig) (d : Dig) (mon : Option Path) (hF : d ∉ F)
     (hm : assoc c.dirs d = some none) :
-    (fetch c F d).result = .error .invalidArgument ∧ (fetch c F d).created = 0 := by
-  simp [fetch, hF, hm]
+    (fetch c F d mon).result = .error .invalidArgument ∧ (fetch c F d mon).created = 0 := by
+  simp [fetch, fetchBase, hF, hm]
 
 /-- Conversely a well-formed message is attached exactly: its children are the
-entries of the message, nothing more, nothing less, nothing unlinked. -/
-theorem wellformed_is_exact (c : CAS) (F : List Dig) (d : Dig) (m : DirMsg) (hF : d ∉ F)
-    (hm : assoc c.dirs d = some (some m)) (hw : WellFormed c.hashLen m) :
-    fetch c F d = ⟨.ok (specChildren c.hashLen m), m.files.length + m.syms.length, 0⟩ :=
-  fetch_wellFormed c F d m hF hm hw
+entries of the message, nothing more, nothing less, nothing unlinked (the access
+monitoring wrapper only annotates them with the monitor they report to). -/
+theorem wellformed_is_exact (c : CAS) (F : List Dig) (d : Dig) (mon : Option Path) (m : DirMsg)
+    (hF : d ∉ F) (hm : assoc c.dirs d = some (some m)) (hw : WellFormed c.hashLen m) :
+    fetch c F d mon =
+      ⟨.ok ((specChildren c.hashLen m).map (annotate mon)), m.files.length + m.syms.length, 0⟩ :=
+  fetch_wellFormed c F d mon m hF hm hw
 
 /-- Leaves are balanced in every case (also under faults). -/
-theorem no_leaf_stays_linked (c : CAS) (F : List Dig) (d : Dig) :
-    match (fetch c F d).result with
-    | .ok _ => (fetch c F d).unlinked = 0
-    | .error _ => (fetch c F d).unlinked = (fetch c F d).created :=
-  fetch_balance c F d
+theorem no_leaf_stays_linked (c : CAS) (F : List Dig) (d : Dig) (mon : Option Path) :
+    match (fetch c F d mon).result with
+    | .ok _ => (fetch c F d mon).unlinked = 0
+    | .error _ => (fetch c F d mon).unlinked = (fetch c F d mon).created :=
+  fetch_balance c F d mon
 
 /-- All-or-nothing at the root: merging a digest whose message cannot be loaded
 returns the error and changes nothing. -/
-theorem malformed_root_not_merged (s : State) (F : List Dig) (d : Dig) (e : Err)
-    (h : (fetch s.cas F d).result = .error e) : merge s F d = (s, .mergeErr e) := by
+theorem malformed_root_not_merged (s : State) (F : List Dig) (d : Dig) (m : Bool) (e : Err)
+    (h : (fetch s.cas F d (if m then some [] else none)).result = .error e) :
+    merge s F d m = (s, .mergeErr e) := by
   simp [merge, h]
 
 /-- Below the root: **every** operation whose path leads through a directory that
 cannot be loaded fails with `EIO` — at the first access and at every later one,
 whatever was explored or modified elsewhere, with or without faults. It never
-yields a listing or a child. -/
+yields a listing or a child (`firstPath`: the path of the directory the operation
+works on; for link the directory of the source). -/
 theorem malformed_never_a_tree (s : State) (F : List Dig) (op : Op) (p q : Path) (b : Node) (e : Err)
-    (hop : ∀ d, op ≠ .merge d) (hpath : pathOf op = p ++ q)
+    (hpath : firstPath op = some (p ++ q))
     (hb : nodeAt s.cas s.root p = some b) (he : contents s.cas [] b = .err e) :
-    (step s F op).2 = .status .eio := by
-  have := withDir_through_bad s.cas F (actOf s.cas F op) p q s.root b e hb he
-  cases op with
-  | merge d => exact absurd rfl (hop d)
-  | _ => simp only [step]; rw [hpath]; exact this
+    (step s F op).2 = .status .eio :=
+  step_through_bad s F op p q b e hpath hb he
+
+/-- Nor can anything be renamed out of, renamed into or linked into such a directory
+or anything below it (`viaPaths`: the old and the new directory of a rename, the
+target directory of a link; the caller's walk to the other directory may fail
+first, so the error is not necessarily `EIO`). -/
+theorem malformed_never_a_destination (s : State) (F : List Dig) (op : Op) (p q : Path) (b : Node)
+    (e : Err) (hpath : (p ++ q) ∈ viaPaths op)
+    (hb : nodeAt s.cas s.root p = some b) (he : contents s.cas [] b = .err e) :
+    (step s F op).2 ≠ .ok :=
+  step_into_bad s F op p q b e hpath hb he
 
 /-- … and the directory itself stays exactly as it was (still lazy: nothing attached). -/
 theorem malformed_nothing_attached (c : CAS) (F : List Dig) (act : Children → Children × Out)
@@ -256,10 +274,10 @@ example : ¬ WellFormed exCAS.hashLen ⟨[], [⟨[121], raw f1, false⟩], [⟨[
 /-- The duplicate is found after the file leaf was created: created 1, unlinked 1;
 through the tree: `bad/` is visible as a directory, reading it or anything below
 gives `EIO`, merging it as a root gives `InvalidArgument`. -/
-example : ((fetch exCAS [] dD).created, (fetch exCAS [] dD).unlinked) = (1, 1) := by decide
+example : ((fetch exCAS [] dD none).created, (fetch exCAS [] dD (some [])).unlinked) = (1, 1) := by decide
 example :
-    (run (merge (init exCAS) [] dA).1 (noFaults
-      [.lookup [] [98], .readdir [[98]], .lookup [[98]] [121], .remove [] [98], .merge dD])).2 =
+    (run (merge (init exCAS) [] dA false).1 (noFaults
+      [.lookup [] [98], .readdir [[98]], .lookup [[98]] [121], .remove [] [98], .merge dD false])).2 =
     [.kind .dir, .status .eio, .status .eio, .status .eio, .mergeErr .invalidArgument] := by decide
 
 /-! ## `cas_files_immutable` -/
@@ -267,7 +285,7 @@ example :
 /-- Every attempt to write, truncate, allocate, open for writing or change the size
 of a CAS backed file is refused. -/
 theorem cas_file_refuses (c : CAS) (F : List Dig) (op : LeafOp) (hw : isWriteAttempt op = true)
-    (d : Dig) (x : Bool) : isRefusal (leafOut c F op (.file d x)) := by
+    (d : Dig) (x : Bool) (m : Option Path) : isRefusal (leafOut c F op (.file d x m)) := by
   cases op <;> simp_all [isWriteAttempt, leafOut, isRefusal]
 
 /-- No operation of the model writes to the CAS. -/
@@ -278,16 +296,16 @@ theorem cas_unchanged (s : State) (hs : List (List Dig × Op)) : (run s hs).1.ca
 that denotes a CAS backed file is refused (or, if a fault is injected, fails
 with `EIO`), the tree stays equivalent and the CAS is untouched. -/
 theorem cas_files_immutable (s : State) (F : List Dig) (op : LeafOp) (hw : isWriteAttempt op = true)
-    (p : Path) (x : Name) (d : Dig) (ex : Bool)
-    (hn : nodeAt s.cas s.root (p ++ [x]) = some (.file d ex)) :
+    (p : Path) (x : Name) (d : Dig) (ex : Bool) (m : Option Path)
+    (hn : nodeAt s.cas s.root (p ++ [x]) = some (.file d ex m)) :
     (isRefusal (step s F (.leaf op p x)).2 ∨ (step s F (.leaf op p x)).2 = .status .eio) ∧
     SEquiv (step s F (.leaf op p x)).1 s ∧ (step s F (.leaf op p x)).1.cas = s.cas := by
   refine ⟨?_, ⟨rfl, ?_⟩, rfl⟩
   · rcases withDir_fault s.cas F _ _ (actLeaf_fault s.cas F op x) p s.root with h | ⟨h1, _⟩
     · left
-      simp only [step, pathOf, actOf]
+      simp only [step]
       rw [h, withDir_leaf_out s.cas [] op x p s.root _ hn]
-      exact cas_file_refuses s.cas [] op hw d ex
+      exact cas_file_refuses s.cas [] op hw d ex m
     · right; exact h1
   · exact withDir_keeps s.cas F _ (actLeaf_keeps s.cas F op x) p s.root
 
@@ -295,8 +313,8 @@ theorem cas_files_immutable (s : State) (F : List Dig) (op : LeafOp) (hw : isWri
 does to its input root, a directory fetch or a file read of any digest gives
 another action (or the same one, later) what it gave before. -/
 theorem others_unaffected (s : State) (hs : List (List Dig × Op)) (F : List Dig) (d : Dig)
-    (op : LeafOp) (n : Node) :
-    fetch (run s hs).1.cas F d = fetch s.cas F d ∧
+    (mon : Option Path) (op : LeafOp) (n : Node) :
+    fetch (run s hs).1.cas F d mon = fetch s.cas F d mon ∧
     leafOut (run s hs).1.cas F op n = leafOut s.cas F op n := by
   rw [run_cas]; exact ⟨rfl, rfl⟩
 
@@ -304,12 +322,137 @@ theorem others_unaffected (s : State) (hs : List (List Dig × Op)) (F : List Dig
 creating a local file under the same name is allowed, the local file accepts
 writes; the file read through another path or a fresh merge is unchanged. -/
 example :
-    (run (merge (init exCAS) [] dA).1 (noFaults
+    (run (merge (init exCAS) [] dA false).1 (noFaults
       [.leaf .openWrite [] [120], .leaf .openTrunc [] [120], .leaf .setSize [] [120],
        .leaf .allocate [] [120], .leaf .write [] [120], .leaf (.read 0 9) [] [120],
        .remove [] [120], .create [] [120], .leaf .write [] [120]])).2 =
     [.status .eacces, .status .eacces, .status .eacces, .status .ewrongtype, .unreachable,
      .data [1, 2, 3, 4], .ok, .ok, .ok] := by decide
+
+/-! ## rename and link: how an action modifies its own copy -/
+
+/-- `VirtualRename` and `VirtualLink` are covered by every theorem above (they are
+operations of `step`): in particular they never touch the CAS, cannot tell a lazy
+tree from the eager one, and under faults fail with `EIO` without effect. Stated
+once more for the two operations, for any equivalent trees: same answer,
+equivalent results — renaming a directory that has not been loaded yet and
+loading it afterwards under its new name shows what loading it first and moving
+the loaded subtree shows. -/
+theorem rename_link_lazy_equals_eager (l e : State) (h : SEquiv l e) (p1 : Path) (x1 : Name)
+    (p2 : Path) (x2 : Name) :
+    ((step l [] (.rename p1 x1 p2 x2)).2 = (step e [] (.rename p1 x1 p2 x2)).2 ∧
+      SEquiv (step l [] (.rename p1 x1 p2 x2)).1 (step e [] (.rename p1 x1 p2 x2)).1) ∧
+    ((step l [] (.link p1 x1 p2 x2)).2 = (step e [] (.link p1 x1 p2 x2)).2 ∧
+      SEquiv (step l [] (.link p1 x1 p2 x2)).1 (step e [] (.link p1 x1 p2 x2)).1) :=
+  ⟨step_equiv l e _ h, step_equiv l e _ h⟩
+
+/-- What is attached by a rename is the node that was found under the old name, as
+it is: after a successful attach the new path denotes exactly that node. A
+directory that was lazy is still the same lazy directory (same digest, same
+fetcher wrapper), so it materialises to the same subtree. -/
+theorem rename_attaches_the_old_node (c : CAS) (x : Name) (v : Node) (p : Path) (t : Node)
+    (h : (withDir c [] (actPut x v) p t).2 = .ok) :
+    nodeAt c (withDir c [] (actPut x v) p t).1 (p ++ [x]) = some v :=
+  put_lands c x v p t h
+
+/-- Replacing an input by renaming a local file over it, removing it, linking it
+elsewhere: the CAS is what it was, so every other directory that refers to the
+same digest — in this tree, in another action's tree, now or later — loads and
+reads what it did before. -/
+theorem rename_over_changes_only_the_local_tree (s : State) (F : List Dig) (p1 : Path) (x1 : Name)
+    (p2 : Path) (x2 : Name) (d : Dig) (mon : Option Path) (op : LeafOp) (n : Node) :
+    (step s F (.rename p1 x1 p2 x2)).1.cas = s.cas ∧ (step s F (.link p1 x1 p2 x2)).1.cas = s.cas ∧
+    fetch (step s F (.rename p1 x1 p2 x2)).1.cas F d mon = fetch s.cas F d mon ∧
+    leafOut (step s F (.rename p1 x1 p2 x2)).1.cas F op n = leafOut s.cas F op n :=
+  ⟨rfl, rfl, rfl, rfl⟩
+
+/-- `s/` (digest `b0`, never looked at) is renamed to `moved`, a local file is created
+and renamed over the CAS file `x`, `l` is linked as `l2`. The moved directory then
+lists what `b0` names, `x` is a local file, the name `s` is gone, and the same
+history on the eagerly expanded tree gives the same answers. A second action that
+merges `a0` sees the original tree. -/
+example :
+    (run (merge (init exCAS) [] dA false).1 (noFaults
+      [.rename [] [115] [] [109], .create [] [116], .rename [] [116] [] [120], .link [] [108] [] [50],
+       .readdir [[109]], .lookup [] [120], .lookup [] [115], .lookup [] [50],
+       .rename [] [109] [[104]] [109], .readdir [[104]]])).2 =
+    [.ok, .ok, .ok, .ok, .listing [([97], .dir), ([121], .file f2 false)], .kind .loc,
+     .status .enoent, .kind (.sym [116]), .ok, .listing [([109], .dir)]] := by decide
+
+example :
+    (run (merge (init exCAS) [] dA false).1 (noFaults
+      [.rename [] [115] [] [109], .readdir [[109]], .rename [] [120] [] [104], .rename [] [104] [] [120],
+       .rename [[109]] [97] [] [108]])).2 =
+    (run ⟨exCAS, expand exCAS 3 (merge (init exCAS) [] dA false).1.root⟩ (noFaults
+      [.rename [] [115] [] [109], .readdir [[109]], .rename [] [120] [] [104], .rename [] [104] [] [120],
+       .rename [[109]] [97] [] [108]])).2 := by decide
+
+/-! ## `monitoring_is_transparent` -/
+
+/-- One operation on a tree whose input root was merged with the access monitoring
+wrapper (`NewAccessMonitoringInitialContentsFetcher`; every directory below wrapped
+for `ResolvedDirectory`, every file with a read monitor) and the same operation
+without: same answer, equivalent trees. -/
+theorem monitoring_is_transparent_step (l e : State) (h : SEquiv l e) (op : Op) :
+    (step l [] op).2 = (step e [] (unmonitored op)).2 ∧
+    SEquiv (step l [] op).1 (step e [] (unmonitored op)).1 := by
+  cases op with
+  | merge d m =>
+    -- both fetches fail alike or return the same entries up to the wrapper
+    obtain ⟨hc, hr⟩ := h
+    simp only [unmonitored, step, merge, ← hc, fetch_result_mon]
+    cases (fetchBase l.cas [] d).result with
+    | error err => exact ⟨rfl, hc, hr⟩
+    | ok new =>
+      simp only []
+      have hcon := hr.contents
+      cases hl : contents l.cas [] l.root <;> cases he : contents l.cas [] e.root <;>
+        rw [hl, he] at hcon <;> simp only [ContRel] at hcon
+      · exact ⟨rfl, hc, hr⟩
+      · exact ⟨rfl, hc, hr⟩
+      · have := actMerge_rel l.cas
+          (annotated_rel l.cas new (if m = true then some [] else none) (if false = true then some [] else none))
+          _ _ hcon
+        exact ⟨this.1, rfl, equiv_dir this.2⟩
+  | lookup p x => exact step_equiv l e _ h
+  | readdir p => exact step_equiv l e _ h
+  | leaf o p x => exact step_equiv l e _ h
+  | remove p x => exact step_equiv l e _ h
+  | create p x => exact step_equiv l e _ h
+  | mkdir p x => exact step_equiv l e _ h
+  | rename p1 x1 p2 x2 => exact step_equiv l e _ h
+  | link ps xs pd xd => exact step_equiv l e _ h
+
+/-- **The access monitoring wrapper does not change what the tree shows**: every
+history — merges with a monitor, exploration in any order, write attempts,
+remove/create/mkdir/rename/link — answers exactly as the same history without
+monitors, and the trees stay equivalent. (With `lazy_with_faults`: also under
+faults, up to the operations the faults hit.) -/
+theorem monitoring_is_transparent (l e : State) (h : SEquiv l e) (ops : List Op) :
+    (run l (noFaults ops)).2 = (run e (noFaults (ops.map unmonitored))).2 ∧
+    SEquiv (run l (noFaults ops)).1 (run e (noFaults (ops.map unmonitored))).1 := by
+  induction ops generalizing l e with
+  | nil => exact ⟨rfl, h⟩
+  | cons op rest ih =>
+    have hs := monitoring_is_transparent_step l e h op
+    have hr := ih _ _ hs.2
+    simp only [noFaults, List.map_cons, run] at hr ⊢
+    exact ⟨by rw [hs.1, hr.1], hr.2⟩
+
+/-- A directory wrapped for a monitor and the bare one are equivalent, whatever the
+monitor: nothing that can be observed through the tree depends on it. -/
+theorem monitored_directory_equiv (c : CAS) (d : Dig) (m m' : Option Path) :
+    Equiv c (.lazy d m) (.lazy d m') :=
+  equiv_mon c d m m'
+
+/-- The same exploration with and without monitor. -/
+example :
+    (run (init exCAS) (noFaults
+      [.merge dA true, .readdir [[115]], .leaf (.read 0 9) [] [120], .leaf .openWrite [] [120],
+       .rename [] [115] [] [109], .readdir [[109], [97]], .readdir [[98]]])).2 =
+    (run (init exCAS) (noFaults
+      [.merge dA false, .readdir [[115]], .leaf (.read 0 9) [] [120], .leaf .openWrite [] [120],
+       .rename [] [115] [] [109], .readdir [[109], [97]], .readdir [[98]]])).2 := by decide
 
 /-! ## `cache_keys_separate` -/
 
